@@ -7,8 +7,10 @@ import (
 	"io"
 	"math/rand/v2"
 	"os"
+	"runtime"
 	"strings"
 	"sync"
+	"sync/atomic"
 	"testing"
 	"time"
 
@@ -438,7 +440,24 @@ func TestParallelLeg(t *testing.T) {
 	}
 	start := time.Now()
 	sum := RaceSummary{Type: "par-summary", Stats: map[string]int64{}}
+	// a game takes seconds at most: if none finishes for 90 s some search does
+	// not return. Say where every goroutine is (runtime.Stack stops the world,
+	// so running goroutines have their frames too) and end the process.
+	var progress atomic.Int64
+	progress.Store(time.Now().UnixNano())
+	go func() {
+		for {
+			time.Sleep(time.Second)
+			if time.Since(time.Unix(0, progress.Load())) > 90*time.Second {
+				buf := make([]byte, 1<<22)
+				n := runtime.Stack(buf, true)
+				fmt.Fprintf(os.Stderr, "\nPARALLEL-LEG-STUCK no game finished for 90 s\n\n%s\n", buf[:n])
+				os.Exit(3)
+			}
+		}
+	}()
 	for i := job.First; ; i++ {
+		progress.Store(time.Now().UnixNano())
 		if job.Sessions > 0 && i >= job.First+job.Sessions {
 			break
 		}
